@@ -129,6 +129,17 @@ fn gen_c01(ctx: &mut Ctx) {
             rt_case(ctx, 0x0102 + k as u16, (k * 16 + j) as u8, &rng.bytes(len), j % 2 == 0, "rejected-line-then-more");
         }
     }
+    // a write whose sink panics and a read whose source panics (each contained on a thread of its own) must not disturb
+    // the frames handled afterwards, on this or any other thread
+    {
+        let line = "WIRES @ HE.3 SD.16.0102 RS.5.PLD".to_string();
+        let res = ctx.case(line.clone(), true, "panicking-sink-then-more");
+        ctx.monitor(res == "OK HE.3 ; OK SD.16.0102 ; OK RS.5.PLD | left=0", "C01-roundtrip-shape", &line, &res);
+        for j in 0..4usize {
+            let len = [0usize, 1, 16, 255][j];
+            rt_case(ctx, 0x0301 + j as u16, (j * 50) as u8, &rng.bytes(len), j % 2 == 0, "panicking-sink-then-more");
+        }
+    }
     // the same round trips while a thread is being torn down (from the destructors of its thread-local objects)
     for (k, len) in [0usize, 1, 16, 255].into_iter().enumerate() {
         let line = format!("TLSD RT {} {} {}", 0x0102 + k, k * 60, { let b = rng.bytes(len); if b.is_empty() { "-".to_string() } else { hex_of_bytes(&b) } });
@@ -1103,7 +1114,9 @@ fn gen_c05(ctx: &mut Ctx) {
             })
             .collect();
         // every fourth stream is preceded by a write of another frame to a writer that fails part-way
-        let line = format!("WIRES {}{}", if k % 4 == 1 { "! " } else { "" }, msgs.join(" "));
+        // ... every fourth one by a write elsewhere whose sink panicked (contained on another thread); every fifth stream ends
+        // without the last frame's CR LF
+        let line = format!("WIRES {}{}{}{}", if k % 4 == 1 { "! " } else { "" }, if k % 4 == 3 { "@ " } else { "" }, if k % 5 == 2 { "$ " } else { "" }, msgs.join(" "));
         let res = ctx.case(line.clone(), true, "stream-of-messages");
         let want = format!("{} | left=0", msgs.iter().map(|m| format!("OK {}", m)).collect::<Vec<_>>().join(" ; "));
         ctx.monitor(res == want, "C05-roundtrip", &line[..line.len().min(300)], &res[..res.len().min(200)]);
